@@ -26,5 +26,11 @@ Proof.
   all: repeat (destruct Hin as [Hin|Hin]; [try discriminate Hin|]); try contradiction.
   all: try (inversion Hin; subst b J; clear Hin; simpl in Hty; try discriminate Hty).
   all: st.
-  all: idtac "goal". Show 1. Show 2.
-Abort.
+  all: try (rewrite H in *; repeat split; auto; left; auto; fail).
+  all: try (repeat split; auto; right; exists all, c; repeat split; auto; fail).
+  all: rewrite H0 in *; (split; [reflexivity|]); (split; [assumption|]); right;
+       exists (flat (buffer_add (fifo p) (buffer s) m)), (cfr s); (split; [assumption|]); (split; [left; auto|]).
+  - right. subst b0. exists n. auto.
+  - left. repeat split; auto. unfold own_branch. rewrite Heqp0. destruct b0; [|reflexivity].
+    simpl in Heqb6. apply negb_false_iff in Heqb6. apply Nat.eqb_eq in Heqb6. apply Nat.eqb_eq. auto.
+Qed.
